@@ -295,10 +295,15 @@ class DBStorage(BaseStorage):
                 for tag in event.tags:
                     name = tag[0]
                     if name == "e":
-                        event_id = tag[1]
+                        try:
+                            event_id = tag[1]
+                            id_bytes = bytes.fromhex(event_id)
+                        except (IndexError, ValueError, TypeError):
+                            # not a usable reference: ignore it, honor the valid ones
+                            continue
                         query = sa.delete(self.EventTable).where(
                             (self.EventTable.c.pubkey == bytes.fromhex(event.pubkey))
-                            & (self.EventTable.c.id == bytes.fromhex(event_id))
+                            & (self.EventTable.c.id == id_bytes)
                         )
                         await conn.execute(query)
                         self.log.info("Deleted event %s", event_id)
